@@ -762,3 +762,40 @@ M2('c05-k3-render-media-helper-called-without-the-data-test', 'C05', 'R3', [
             "                self.content_type, self.options.default_media_type\n            )\n\n"
             + "            self._media_rendered = handler.serialize(self._media, self.content_type)\n\n        return self._media_rendered\n\n" + _RB_REPR}],
    also=('C12',))
+
+# ------------------------------------------------ wave 11
+# R6, WSGI _get_body (s11-c05-1): the object returned to the server for a stream without read() is the stream itself
+# or a package wrapper whose close() forwards; a callable of the frozen close-dropping table / a comprehension is not
+_PLAIN_STREAM = "            else:\n                iterable = stream\n\n            return iterable, None\n"
+_HELPERS_CLS = 'class CloseableStreamIterator:\n'
+
+
+def _plain(new):
+    return _PLAIN_STREAM.replace('iterable = stream\n', new)
+
+
+M('c05-w11-wsgi-plain-stream-returned-as-iter', 'C05', 'R6', A, _PLAIN_STREAM,
+  _plain('iterable = iter(stream)  # type: ignore[arg-type]\n'))
+M('c05-w11-wsgi-plain-stream-early-return-of-iter', 'C05', 'R6', A, _PLAIN_STREAM,
+  "            else:\n                return iter(stream), None\n\n            return iterable, None\n")
+M('c05-w11-wsgi-plain-stream-generator-expression', 'C05', 'R6', A, _PLAIN_STREAM,
+  _plain('iterable = (chunk for chunk in stream if chunk)\n'))
+M('c05-w11-wsgi-plain-stream-materialised-list', 'C05', 'R6', A, _PLAIN_STREAM,
+  _plain('iterable = list(stream)\n'))
+M('c05-w11-wsgi-plain-stream-filtered', 'C05', 'R6', A, _PLAIN_STREAM,
+  _plain('chunks = filter(None, stream)\n                iterable = chunks\n'))
+M2('c05-w11-wsgi-plain-stream-chained', 'C05', 'R6', [
+    {'file': A, 'old': 'from functools import wraps\n', 'new': 'from functools import wraps\nimport itertools\n'},
+    {'file': A, 'old': _PLAIN_STREAM, 'new': _plain("iterable = itertools.chain((b'',), stream)\n")},
+])
+_WRAPPER_HEAD = ("class _StreamBody:\n    def __init__(self, stream):\n        self._stream = stream\n\n"
+                 "    def __iter__(self):\n        return iter(self._stream)\n\n")
+M2('c05-w11-wsgi-plain-stream-package-wrapper-without-close', 'C05', 'R6', [
+    {'file': 'falcon/app_helpers.py', 'old': _HELPERS_CLS, 'new': _WRAPPER_HEAD + '\n' + _HELPERS_CLS},
+    {'file': A, 'old': _PLAIN_STREAM, 'new': _plain('iterable = helpers._StreamBody(stream)\n')},
+])
+M2('c05-w11-wsgi-plain-stream-package-wrapper-close-on-one-arm', 'C05', 'R6', [
+    {'file': 'falcon/app_helpers.py', 'old': _HELPERS_CLS,
+     'new': _WRAPPER_HEAD + "    def close(self):\n        if self._stream:\n            self._stream.close()\n\n\n" + _HELPERS_CLS},
+    {'file': A, 'old': _PLAIN_STREAM, 'new': _plain('iterable = helpers._StreamBody(stream)\n')},
+])
